@@ -8,8 +8,11 @@
 (*        the attribute list html.parser read from the output, and the raw  *)
 (*        output text;                                                      *)
 (*  kind "slot":  origin, content, hops and the text rendered by the slot;  *)
-(*  kind "guard": component kind, js/css content, outcome, and the output   *)
-(*        from just after the element's start tag.                          *)
+(*  kind "guard": events = a history of renders in ONE process (the same     *)
+(*        component class several times, possibly interleaved with another  *)
+(*        one); each event carries the component kind, its js/css content,  *)
+(*        the outcome of this render and the output from just after the     *)
+(*        element's start tag.  Every render is judged by the content alone.*)
 (* Every observation is judged with the operators of HtmlAttrs, SlotEscape, *)
 (* EndTagGuard.  Verdicts are total: one ACCEPT/REJECT line per trace.  A   *)
 (* REJECT whose only clause is "dev:<key>" is a result that equals the      *)
@@ -59,6 +62,8 @@ GuardFailing(t) ==
 
 FirstBad(evs) == LET bad == {i \in 1..Len(evs) : AttrsFailing(evs[i]) # {}} IN
                  IF bad = {} THEN 0 ELSE CHOOSE i \in bad : \A j \in bad : i <= j
+FirstBadRender(evs) == LET bad == {i \in 1..Len(evs) : GuardFailing(evs[i]) # {}} IN
+                       IF bad = {} THEN 0 ELSE CHOOSE i \in bad : \A j \in bad : i <= j
 Judge(t) ==
   CASE t.kind = "attrs" ->
          LET i == FirstBad(t.events)
@@ -69,7 +74,10 @@ Judge(t) ==
     [] t.kind = "slot" ->
          IF SlotFailing(t) = {} THEN PrintT(<<"ACCEPT", t.id>>) ELSE PrintT(<<"REJECT", t.id, 1, SlotFailing(t)>>)
     [] t.kind = "guard" ->
-         IF GuardFailing(t) = {} THEN PrintT(<<"ACCEPT", t.id>>) ELSE PrintT(<<"REJECT", t.id, 1, GuardFailing(t)>>)
+         LET i == FirstBadRender(t.events) IN
+         /\ Assert((i = 0) = HistoryAdmitted(t.events) \/ \E j \in 1..Len(t.events) : GuardFailing(t.events[j]) \cap
+                      {"content_altered", "element_cut_short"} # {}, "FirstBadRender and HistoryAdmitted disagree")
+         /\ IF i = 0 THEN PrintT(<<"ACCEPT", t.id>>) ELSE PrintT(<<"REJECT", t.id, i, GuardFailing(t.events[i])>>)
 
 TrNext == tid <= Len(Traces) /\ Judge(Traces[tid]) /\ tid' = tid + 1
 TrSpec == TrInit /\ [][TrNext]_tid
